@@ -2,6 +2,7 @@ import CacheVerif.Model.ConcCache
 import CacheVerif.Props.C06
 import CacheVerif.Props.C08
 import CacheVerif.Expect.Ctor
+import CacheVerif.Proofs.DeepSource
 /-!
 # C15 — the janitor cleans up on its own, only when configured, and dies with the cache
 
@@ -50,6 +51,14 @@ theorem C15_tick_cleans (s : Cache.St K V) (hw : AMap.WF s.items) (k : K) :
       | some i => if TTL.expired i.e s.now then none else some i
       | none => none :=
   (C06.C06_deleteExpired s hw).2.2 k
+
+/-- the same for the text of `DeleteExpired` in both files (the janitor's tick is that method - `C15_janitor_loop`) -/
+theorem C15_source_tick_cleans (s : Cache.St K V) (hw : AMap.WF s.items) (k : K) (T : Deep.Twin K V) (hT : DeepSource.IsTwin T) :
+    ∃ s' r, Deep.deepStep T s .deleteExpired = some (s', r) ∧
+      s'.items.get k = match s.items.get k with
+        | some i => if TTL.expired i.e s.now then none else some i
+        | none => none :=
+  ⟨_, _, DeepSource.step s _ T hT, C15_tick_cleans s hw k⟩
 
 /-- without a janitor, between user calls only the clock moves, and that leaves the physical content alone -/
 theorem C15_no_janitor_no_removal (s : ConcCache.St K V) (c : ConcCache.Choice K V) (δ : Nat) (s' : ConcCache.St K V)
